@@ -208,14 +208,12 @@ class DSDLTemplateLoader(BaseLoader):
         """
         template_path = None
         if self._fsloader is not None:
-            filtered_templates = self._filter_template_list_by_suffix(self._fsloader.list_templates())
             template_path = self._type_to_template_internal(
-                value_type, dict(map(lambda x: (pathlib.Path(x).stem, pathlib.Path(x)), filtered_templates)), "fs"
+                value_type, self._type_templates(self._fsloader.list_templates()), "fs"
             )
         if template_path is None and self._package_loader is not None:
-            filtered_templates = self._filter_template_list_by_suffix(self._package_loader.list_templates())
             template_path = self._type_to_template_internal(
-                value_type, dict(map(lambda x: (pathlib.Path(x).stem, pathlib.Path(x)), filtered_templates)), "package"
+                value_type, self._type_templates(self._package_loader.list_templates()), "package"
             )
 
         return template_path
@@ -226,6 +224,13 @@ class DSDLTemplateLoader(BaseLoader):
     @staticmethod
     def _filter_template_list_by_suffix(files: typing.List[str]) -> typing.List[str]:
         return [f for f in files if pathlib.Path(f).suffix == TEMPLATE_SUFFIX]
+
+    @classmethod
+    def _type_templates(cls, files: typing.List[str]) -> typing.Dict[str, pathlib.Path]:
+        # Only ``<type name>.j2`` directly under a templates directory is the template of a type (see "Template Mapping
+        # and Use" in the documentation). Templates in sub-directories are for include/extends: they are loaded by their
+        # full relative name, which the template name of a type (a bare file name) can never be.
+        return {pathlib.Path(f).stem: pathlib.Path(f) for f in cls._filter_template_list_by_suffix(files) if "/" not in f}
 
     def _type_to_template_internal(
         self, value_type: typing.Type, templates: typing.Mapping[str, pathlib.Path], walk: str
